@@ -7,7 +7,8 @@ generator : option vectors x inputs: valid schemas; token-level mutants; structu
 oracle    : prophyc.main(args) under a SIGALRM watchdog either returns having written every requested output file,
             or raises ProphycError / SystemExit (argparse) / the plain Exception of the patch module / the file
             processor's own errors.  Violation: timeout, or an escaping ValueError, LookupError (Key/Index),
-            AttributeError, TypeError, AssertionError, RecursionError or ArithmeticError (ZeroDivisionError).  Failures are bucketed by (exception type,
+            AttributeError, TypeError, AssertionError, RecursionError, ArithmeticError (ZeroDivisionError) or OSError
+            (e.g. IsADirectoryError for an include that names a directory).  Failures are bucketed by (exception type,
             innermost prophyc frame) so that one run enumerates root causes; the smallest input per bucket is kept.
             A sample of inputs is replayed through `python -m prophyc` to confirm exit status != 0 with stderr text.
 """
@@ -33,7 +34,8 @@ ASSUME = ["inputs are valid UTF-8 (UnicodeDecodeError is outside the domain)",
           "xml.etree ParseError is bucketed and reported in evidence but not judged (the property's list does not name "
           "it)", "watchdog 30 s against a typical run of 15 ms"]
 WATCHDOG_S = 30
-FORBIDDEN = (ValueError, LookupError, AttributeError, TypeError, AssertionError, RecursionError, ArithmeticError)
+FORBIDDEN = (ValueError, LookupError, AttributeError, TypeError, AssertionError, RecursionError, ArithmeticError,
+             OSError)
 
 
 class _Timeout(BaseException):
